@@ -177,6 +177,19 @@ pub fn suite(out: &mut Out, seed: u64, thorough: bool) {
 			3 => l,
 			_ => lo + (hi - lo) * rng.unit(),
 		};
+		// ranges of a few ulps and of absolute size below machine epsilon (zero-range guards must be exact)
+		if i % 17 == 5 {
+			let k = 1 + rng.below(3);
+			let base = *rng.pick(&[1e-16, 0.5, 1.0, 123.456, 1e9]);
+			l = base;
+			h = f64::from_bits(base.to_bits() + k);
+			if rng.chance(1, 3) {
+				l = *rng.pick(&[1e-16, 1e-300, 3e-17]);
+				h = l * 2.0;
+			}
+			o = if rng.chance(1, 2) { l } else { h };
+			c = if rng.chance(1, 2) { l } else { h };
+		}
 		let f = [o, h, l, c, v, p];
 		if i < 3 {
 			out.sample(format!("ohlcv {:?}", f));
@@ -189,6 +202,26 @@ pub fn suite(out: &mut Out, seed: u64, thorough: bool) {
 			let lo = 1.0 + 100.0 * rng.unit();
 			let hi = lo + 5.0 * rng.unit();
 			f.extend([lo + (hi - lo) * rng.unit(), hi, lo, lo + (hi - lo) * rng.unit(), 1000.0 * rng.unit()]);
+		}
+		add_line(out, &f);
+	}
+	// aggregation with special fields (NaN / infinities / signed zeros in any position): `+` must stay associative on the
+	// prices (max / min / first open / last close are exact) — Rust-vs-Rust, the rational model has no such values
+	for _ in 0..(n / 10) {
+		let mut f = Vec::new();
+		for _ in 0..3 {
+			let lo = 1.0 + 100.0 * rng.unit();
+			let hi = lo + 5.0 * rng.unit();
+			let mut c = [lo + (hi - lo) * rng.unit(), hi, lo, lo + (hi - lo) * rng.unit(), 1000.0 * rng.unit()];
+			for x in c.iter_mut() {
+				if rng.chance(1, 3) {
+					*x = field(&mut rng, *x);
+					if rng.chance(1, 2) && !x.is_finite() {
+						*x = f64::NAN;
+					}
+				}
+			}
+			f.extend(c);
 		}
 		add_line(out, &f);
 	}
